@@ -232,8 +232,24 @@ class InterpBase:
             return False
         return None
 
-    def lin_sign(self, l, st):
+    def resolve_mins(self, l, st, depth=0):
+        """replace min(A, B) symbols by A or B when the facts known *now* order them"""
+        mins = st.extra.get("mins")
+        if not mins or depth > 3:
+            return l
+        for k, coef in list(l.terms.items()):
+            if k in mins:
+                a, b = mins[k]
+                sgn = self.lin_sign(lin_add(a, b, -1), st, depth + 1)
+                pick = b if sgn in (">0", ">=0", "==0") else (a if sgn in ("<0", "<=0") else None)
+                if pick is not None:
+                    rest = Lin({x: c for x, c in l.terms.items() if x != k}, l.c)
+                    l = lin_add(rest, lin_scale(pick, coef))
+        return l
+
+    def lin_sign(self, l, st, depth=0):
         """'>0' '>=0' '==0' '<0' '<=0' '!=0' or None using stored facts and symbol ranges"""
+        l = self.resolve_mins(l, st, depth)
         if not l.terms:
             return ">0" if l.c > 0 else ("<0" if l.c < 0 else "==0")
         # interval from symbol ranges
